@@ -10,6 +10,11 @@ NOT_APPLICABLE = {
 for _p in ["C%02d" % i for i in range(1, 21)]:
     NOT_APPLICABLE.setdefault(_p, PENDING)
 CLAIMED = {
+    "C11": {
+        "text": "Decides structural necessary conditions of lazy/eager equivalence for all access patterns: (typestate) wherever an element of the workbook's sheet list that may still be raw is passed to code touching any field that deserialisation fills (set L computed from the materialiser's reach), the use is dominated by a materialisation or control-dependent on is_deserialized(); the raw-sheet writer names the sheet part and its own relationships part from the same sheet number; the tables raw sheets index into (shared strings, cellXfs, fonts, fills, borders, style list) are never shrunk or reordered anywhere in the crate. Does not decide equality of lazily and eagerly loaded content.",
+        "note": NOTE,
+        "technique": "typestate by dominators/control dependence on MIR with a computed field set; same-source dataflow; who-may-mutate over the whole crate",
+    },
     "C14": {
         "text": "Decides the structure of agile encryption for all passwords and package sizes: the symbolic normal form of encrypt() (every callee opaque, random sources distinguished by call site) unifies with the MS-OFFCRYPTO dataflow template for all 17 EncryptionInfo attributes — same-source parameters, operand order of every crypt/KDF/IV call, the five block keys, HMAC over the very buffer that is stored, five pairwise distinct fresh random values with the RNG result consumed; hash-chain operand order at the three KDF sites, IV shape and 0x36 padding, segment size 4096, little-endian segment counter from 0 by 1, 8-byte length prefix of the same input. Does not decide digest or cipher values (interoperability).",
         "note": NOTE,
